@@ -31,6 +31,10 @@ pub enum SK {
     Unsub,
     /// `sink.ready().await`
     Ready,
+    /// QoS 1 with a payload larger than the peer's maximum packet size: must fail locally
+    Q1Big,
+    /// subscribe with an over-long filter: must fail locally (encoder)
+    SubBig,
 }
 
 /// A parked QoS 2 receipt (the library's `PublishReceived` type is not nameable from outside):
@@ -72,6 +76,20 @@ async fn run_sender_v5(sink: ntex_mqtt::v5::MqttSink, kind: SK, j: usize, app: A
                 Err(e) => format!("err:{e:?}"),
             });
         }
+        SK::Q1Big => {
+            let r = sink.publish(bs("t")).send_at_least_once(by(&vec![tag(j); 300])).await;
+            push(match &r {
+                Ok(a) => ackstr(a),
+                Err(e) => format!("err:{e:?}"),
+            });
+        }
+        SK::SubBig => {
+            let r = sink.subscribe(None).topic_filter(bs(&"x".repeat(70_000)), c::SubscriptionOptions::default()).send().await;
+            push(match r {
+                Ok(a) => format!("ok:{}", a.packet_id),
+                Err(e) => format!("err:{e:?}"),
+            });
+        }
         SK::Q1 | SK::Q1Loop(_) | SK::Q1Id(_) => {
             let n = if let SK::Q1Loop(n) = kind { n } else { 1 };
             for _ in 0..n {
@@ -97,13 +115,17 @@ async fn run_sender_v5(sink: ntex_mqtt::v5::MqttSink, kind: SK, j: usize, app: A
                     push(a.clone());
                     match kind {
                         SK::Q2Rel => {
+                            app.borrow_mut()[j].rel_started = true;
                             let r = rec.release().await;
                             app.borrow_mut()[j].rel_result = Some(match r {
                                 Ok(()) => "ok".into(),
                                 Err(e) => format!("err:{e:?}"),
                             });
                         }
-                        SK::Q2Drop => drop(rec),
+                        SK::Q2Drop => {
+                            drop(rec);
+                            app.borrow_mut()[j].rel_result = Some("dropped".into());
+                        }
                         _ => {
                             let mut a2 = app.borrow_mut();
                             a2[j].receipt_ack = Some(a);
@@ -155,6 +177,20 @@ async fn run_sender_v3(sink: ntex_mqtt::v3::MqttSink, kind: SK, j: usize, app: A
                 Err(e) => format!("err:{e:?}"),
             });
         }
+        SK::Q1Big => {
+            let r = sink.publish(bs("t")).send_at_least_once(by(&vec![tag(j); 300])).await;
+            push(match &r {
+                Ok(()) => "ok".into(),
+                Err(e) => format!("err:{e:?}"),
+            });
+        }
+        SK::SubBig => {
+            let r = sink.subscribe().topic_filter(bs(&"x".repeat(70_000)), ntex_mqtt::QoS::AtMostOnce).send().await;
+            push(match r {
+                Ok(a) => format!("ok:{a:?}"),
+                Err(e) => format!("err:{e:?}"),
+            });
+        }
         SK::Q1 | SK::Q1Loop(_) | SK::Q1Id(_) => {
             let n = if let SK::Q1Loop(n) = kind { n } else { 1 };
             for _ in 0..n {
@@ -179,13 +215,17 @@ async fn run_sender_v3(sink: ntex_mqtt::v3::MqttSink, kind: SK, j: usize, app: A
                     push("ok".into());
                     match kind {
                         SK::Q2Rel => {
+                            app.borrow_mut()[j].rel_started = true;
                             let r = rec.release().await;
                             app.borrow_mut()[j].rel_result = Some(match r {
                                 Ok(()) => "ok".into(),
                                 Err(e) => format!("err:{e:?}"),
                             });
                         }
-                        SK::Q2Drop => drop(rec),
+                        SK::Q2Drop => {
+                            drop(rec);
+                            app.borrow_mut()[j].rel_result = Some("dropped".into());
+                        }
                         _ => {
                             let mut a2 = app.borrow_mut();
                             a2[j].receipt_ack = Some("ok".into());
@@ -263,6 +303,8 @@ pub struct OutCfg {
     pub judge: u32,
     /// completed exchanges performed before the explored part (non-initial state)
     pub prologue: u8,
+    /// peer's Maximum Packet Size (0 = none): v5 CONNECT / CONNACK property, v3 handshake option
+    pub peer_max_packet: u32,
 }
 
 pub const J_WINDOW: u32 = 1;
@@ -321,6 +363,19 @@ pub struct Out {
     pub acks_sent: Vec<(u8, u16)>,
     pub wire_pub_ids: Vec<(u16, u8, Option<usize>)>,
     pub prologue_left: u8,
+    // --- reference queue model for ack routing (C06) ---
+    /// sends awaiting their first acknowledgement, in wire order: (expected ack type, id, sender)
+    pub main_q: VecDeque<(u8, u16, Option<usize>)>,
+    /// QoS 2 sends whose PUBREC was delivered, awaiting PUBCOMP, in PUBREC order
+    pub rel_q: VecDeque<(u16, Option<usize>)>,
+    /// step at which the peer wrote an acknowledgement the model calls incorrect
+    pub bad_ack: Option<(u64, String)>,
+    /// number of "ok" results every sender had when the incorrect ack was written
+    pub ok_at_bad: Vec<usize>,
+    /// execution left the judged domain (e.g. PUBCOMP before PUBREL): outcome is not judged
+    pub unjudged: Option<String>,
+    /// correct acks the peer wrote: (sender, type, id)
+    pub good_acks: Vec<(Option<usize>, u8, u16)>,
 }
 
 impl Out {
@@ -353,6 +408,7 @@ impl Out {
                         }
                     }
                     self.wire_pub_ids.push((pid.unwrap_or(0), *qos, s));
+                    self.main_q.push_back((if *qos == 1 { 4 } else { 5 }, pid.unwrap_or(0), s));
                     self.pending.push_back(Pending { typ: if *qos == 1 { 3 } else { 32 }, pid: pid.unwrap_or(0), sender: s });
                 }
                 Pkt::Publish { .. } => {
@@ -373,6 +429,7 @@ impl Out {
                             self.per_sender_wire[j] += 1;
                         }
                     }
+                    self.main_q.push_back((9, *pid, s));
                     self.pending.push_back(Pending { typ: 8, pid: *pid, sender: s })
                 }
                 Pkt::Unsubscribe { pid, .. } => {
@@ -381,6 +438,7 @@ impl Out {
                             self.per_sender_wire[j] += 1;
                         }
                     }
+                    self.main_q.push_back((11, *pid, s));
                     self.pending.push_back(Pending { typ: 10, pid: *pid, sender: s })
                 }
                 _ => {}
@@ -425,11 +483,217 @@ impl Out {
         let mut bytes = Vec::new();
         for _ in 0..n {
             if let Some(p) = self.pending.pop_front() {
-                bytes.extend_from_slice(&rf::encode(self.conn.ver(), &self.ack_packet(&p)));
+                let pk = self.ack_packet(&p);
+                let (t, id) = match &pk {
+                    Pkt::Ack { typ, pid, .. } => (*typ, *pid),
+                    Pkt::SubAck { pid, .. } => (9, *pid),
+                    Pkt::UnsubAck { pid, .. } => (11, *pid),
+                    _ => (0, 0),
+                };
+                self.model_ack(t, id);
+                bytes.extend_from_slice(&rf::encode(self.conn.ver(), &pk));
                 self.note_ack_sent(&p);
             }
         }
         self.conn.send_raw(&bytes);
+    }
+
+    /// Reference model: is acknowledgement (type, id) the answer to the oldest outstanding send of its stream?
+    pub fn model_ack(&mut self, t: u8, id: u16) {
+        if self.bad_ack.is_some() || self.unjudged.is_some() {
+            return;
+        }
+        let oks = |s: &Self| s.app.borrow().iter().map(|x| x.results.iter().filter(|r| r.starts_with("ok")).count() + usize::from(x.rel_result.as_deref() == Some("ok"))).collect::<Vec<_>>();
+        if t == 7 {
+            // released QoS 2 exchanges are completed by id (the application may release in any order)
+            match self.rel_q.iter().position(|(hid, _)| *hid == id) {
+                Some(pos) => {
+                    if !self.pubrel_seen.contains(&id) {
+                        self.unjudged = Some(format!("PUBCOMP({id}) written before the endpoint released the message"));
+                        return;
+                    }
+                    let (_, snd) = self.rel_q.remove(pos).unwrap();
+                    self.good_acks.push((snd, 7, id));
+                }
+                None => {
+                    self.ok_at_bad = oks(self);
+                    self.bad_ack = Some((step(), format!("PUBCOMP({id}) with release set {:?}", self.rel_q)));
+                }
+            }
+        } else {
+            match self.main_q.front().copied() {
+                Some((ht, hid, snd)) if ht == t && hid == id => {
+                    self.main_q.pop_front();
+                    if t == 5 {
+                        self.rel_q.push_back((id, snd));
+                    }
+                    self.good_acks.push((snd, t, id));
+                }
+                _ => {
+                    self.ok_at_bad = oks(self);
+                    self.bad_ack = Some((step(), format!("ack type {t} id {id} with send queue {:?}", self.main_q)));
+                }
+            }
+        }
+    }
+
+    fn rwit(&self, what: &str) -> String {
+        format!("{} {what}", self.cfg.ep.label())
+    }
+
+    /// C06: acknowledgements reach the right sender, or the connection fails cleanly.
+    fn judge_routing(&self) -> Result<(), Violation> {
+        if let Some(why) = &self.unjudged {
+            let _ = why;
+            return Ok(());
+        }
+        let stops = self.conn.log.stops();
+        let a = self.app.borrow();
+        // ids on the wire: non-zero, pairwise distinct while outstanding
+        {
+            let mut open: Vec<u16> = Vec::new();
+            let mut acked_main: std::collections::VecDeque<(u8, u16)> = self.good_acks.iter().map(|g| (g.1, g.2)).collect();
+            let _ = &mut acked_main;
+            for (_, p) in &self.conn.out {
+                let id = match p {
+                    Pkt::Publish { qos, pid, .. } if *qos > 0 => pid.unwrap_or(0),
+                    Pkt::Subscribe { pid, .. } | Pkt::Unsubscribe { pid, .. } => *pid,
+                    _ => continue,
+                };
+                if id == 0 {
+                    return Err(Violation::new("zero-packet-id", self.rwit("send"), format!("a send was written with packet id 0: {}", self.detail())));
+                }
+                open.push(id);
+            }
+            // concurrently outstanding = written and not yet answered by a correct ack; with at most 3 sends and
+            // ids released only by correct acks, duplicates among written ids are legal only after such an ack
+            for (i, id) in open.iter().enumerate() {
+                for (j, jd) in open.iter().enumerate() {
+                    if i < j && id == jd {
+                        // the first must have been finished (final ack) before the second was written
+                        let first_step = self.conn.out.iter().filter(|(_, p)| matches!(p, Pkt::Publish { pid: Some(x), .. } if x == id) || matches!(p, Pkt::Subscribe { pid: x, .. } | Pkt::Unsubscribe { pid: x, .. } if x == id)).map(|(s, _)| *s).nth(1).unwrap_or(0);
+                        let finished = self.good_acks.iter().any(|g| g.2 == *id && (g.1 == 4 || g.1 == 7 || g.1 == 9 || g.1 == 11));
+                        let _ = first_step;
+                        if !finished {
+                            return Err(Violation::new("duplicate-packet-id", self.rwit("send"), format!("packet id {id} written twice while the first exchange was outstanding: {}", self.detail())));
+                        }
+                    }
+                }
+            }
+        }
+        match &self.bad_ack {
+            Some((st, what)) => {
+                // no send may complete successfully after the incorrect acknowledgement
+                for (j, s) in a.iter().enumerate() {
+                    let oks = s.results.iter().filter(|r| r.starts_with("ok")).count() + usize::from(s.rel_result.as_deref() == Some("ok"));
+                    if oks > self.ok_at_bad.get(j).copied().unwrap_or(0) {
+                        return Err(Violation::new(
+                            "completed-by-wrong-ack",
+                            self.rwit(&format!("{:?}", self.cfg.senders[j])),
+                            format!("sender {j} completed successfully after the peer wrote an incorrect acknowledgement ({what} at step {st}): {}", self.detail()),
+                        ));
+                    }
+                }
+                let protos = stops.iter().filter(|x| x.starts_with("Stop:Proto")).count();
+                if stops.len() != 1 || protos != 1 {
+                    return Err(Violation::new(
+                        "bad-ack-not-fatal",
+                        self.rwit("incorrect ack"),
+                        format!("incorrect acknowledgement ({what}) must end the connection with exactly one protocol-error Stop, control saw {stops:?}: {}", self.detail()),
+                    ));
+                }
+            }
+            None => {
+                // every correct ack completes exactly its sender with the ack's id
+                if !stops.is_empty() {
+                    return Err(Violation::new(
+                        "correct-peer-stopped",
+                        self.rwit("correct acks"),
+                        format!("all acknowledgements were correct and in order but the connection ended: {stops:?}: {}", self.detail()),
+                    ));
+                }
+                for (snd, t, id) in &self.good_acks {
+                    let Some(j) = snd else { continue };
+                    let s = &a[*j];
+                    if s.cancelled {
+                        continue;
+                    }
+                    let ok = match t {
+                        7 => s.rel_result.as_deref() == Some("ok") || s.rel_result.as_deref() == Some("dropped") || !s.rel_started,
+                        _ => s.results.iter().any(|r| r.starts_with("ok") && (self.conn.ver() == Ver::V3 || r.starts_with(&format!("ok:{id}:")) || *t == 9 || *t == 11)),
+                    };
+                    if !ok {
+                        return Err(Violation::new(
+                            "ack-not-delivered",
+                            self.rwit(&format!("{:?}", self.cfg.senders[*j])),
+                            format!("peer correctly acknowledged id {id} (type {t}) of sender {j} but the send did not complete with it: {}", self.detail()),
+                        ));
+                    }
+                }
+                // a send that the peer has not acknowledged must not have completed successfully
+                for (j, s) in a.iter().enumerate() {
+                    let acked = self.good_acks.iter().filter(|g| g.0 == Some(j) && g.1 != 7).count();
+                    let oks = s.results.iter().filter(|r| r.starts_with("ok")).count();
+                    let needs_ack = !matches!(self.cfg.senders[j], SK::Q0 | SK::Ready);
+                    if needs_ack && oks > acked {
+                        return Err(Violation::new(
+                            "completed-without-ack",
+                            self.rwit(&format!("{:?}", self.cfg.senders[j])),
+                            format!("sender {j} completed {oks} sends successfully but the peer acknowledged only {acked}: {}", self.detail()),
+                        ));
+                    }
+                }
+            }
+        }
+        Ok(())
+    }
+
+    /// C14: concurrent QoS 2 sends complete independently.
+    fn judge_qos2(&self) -> Result<(), Violation> {
+        let a = self.app.borrow();
+        let stops = self.conn.log.stops();
+        if !stops.is_empty() {
+            return Err(Violation::new("qos2-stopped", self.rwit("correct peer"), format!("connection ended: {stops:?}: {}", self.detail())));
+        }
+        for (j, s) in a.iter().enumerate() {
+            if !matches!(self.cfg.senders[j], SK::Q2Hold | SK::Q2Rel | SK::Q2Drop) || !s.started {
+                continue;
+            }
+            // id this sender's PUBLISH carried
+            let Some(id) = self.wire_pub_ids.iter().find(|w| w.2 == Some(j)).map(|w| w.0) else { continue };
+            let rec_sent = self.pubrec_sent.contains(&id);
+            if rec_sent {
+                // resolved with its own PUBREC
+                let ok = s.results.first().is_some_and(|r| r.starts_with("ok") && (self.conn.ver() == Ver::V3 || r.starts_with(&format!("ok:{id}:"))));
+                if !ok {
+                    return Err(Violation::new("qos2-wrong-receipt", self.rwit("send_exactly_once"), format!("sender {j} (id {id}) got {:?} after its PUBREC was delivered: {}", s.results, self.detail())));
+                }
+            } else if !s.results.is_empty() {
+                return Err(Violation::new("qos2-wrong-receipt", self.rwit("send_exactly_once early"), format!("sender {j} (id {id}) completed {:?} before its PUBREC was written: {}", s.results, self.detail())));
+            }
+            let released = s.rel_started || s.rel_result.is_some();
+            let rels = self.pubrel_seen.iter().filter(|x| **x == id).count();
+            if released && rels != 1 {
+                return Err(Violation::new("qos2-pubrel-count", self.rwit("release/drop"), format!("receipt of sender {j} (id {id}) was released or dropped but {rels} PUBREL({id}) packets were written: {}", self.detail())));
+            }
+            if !released && rels != 0 {
+                return Err(Violation::new("qos2-pubrel-count", self.rwit("held receipt"), format!("PUBREL({id}) written although sender {j} still holds its receipt: {}", self.detail())));
+            }
+            if s.rel_started {
+                let comp = self.pubcomp_sent.contains(&id);
+                match (comp, s.rel_result.as_deref()) {
+                    (true, Some("ok")) | (false, None) => {}
+                    (c, r) => {
+                        return Err(Violation::new(
+                            "qos2-release-result",
+                            self.rwit(&format!("release result {}", r.unwrap_or("pending").split('(').next().unwrap_or(""))),
+                            format!("release() of sender {j} (id {id}) is {r:?} while PUBCOMP({id}) delivered = {c}: {}", self.detail()),
+                        ));
+                    }
+                }
+            }
+        }
+        Ok(())
     }
 
     pub fn outstanding_pubs(&self) -> usize {
@@ -480,7 +744,15 @@ impl Out {
 }
 
 pub fn connect_props_for(cfg: &OutCfg) -> rf::Props {
-    if cfg.ep.ver == Ver::V5 && cfg.ep.role == Role::Server { vec![(0x21, PVal::U16(cfg.cap))] } else { vec![] }
+    if cfg.ep.ver == Ver::V5 && cfg.ep.role == Role::Server {
+        let mut p = vec![(0x21, PVal::U16(cfg.cap))];
+        if cfg.peer_max_packet != 0 {
+            p.push((0x27, PVal::U32(cfg.peer_max_packet)));
+        }
+        p
+    } else {
+        vec![]
+    }
 }
 
 pub fn ep_for(mut ep: EpCfg, cap: u16, bp: bool) -> EpCfg {
@@ -531,6 +803,12 @@ impl Scenario for Out {
                 acks_sent: Vec::new(),
                 wire_pub_ids: Vec::new(),
                 prologue_left: cfg.prologue,
+                main_q: VecDeque::new(),
+                rel_q: VecDeque::new(),
+                bad_ack: None,
+                ok_at_bad: Vec::new(),
+                unjudged: None,
+                good_acks: Vec::new(),
                 cfg,
             }
         })
@@ -561,7 +839,9 @@ impl Scenario for Out {
                 }
             }
             PeerMode::Hostile { ids, len } => {
-                if self.peer_sent < *len {
+                // judged at quiescent points only: everything the endpoint encoded is on the wire, so the
+                // reference queue is exactly the endpoint's view
+                if self.peer_sent < *len && _q {
                     let types: &[u8] = if self.cfg.ep.role == Role::Client { &[4, 5, 7, 9, 11] } else { &[4, 5, 7] };
                     for t in types {
                         for id in ids {
@@ -664,6 +944,7 @@ impl Scenario for Out {
                     t => rf::ack(t, id),
                 };
                 self.acks_sent.push((t, id));
+                self.model_ack(t, id);
                 self.conn.send(&p);
             }
         }
@@ -734,7 +1015,10 @@ impl Scenario for Out {
                         format!("sender {j} ({:?}) never completed although the peer acknowledged everything: {}", self.cfg.senders[j], self.detail()),
                     ));
                 }
-                if s.started && !s.cancelled && s.results.iter().any(|r| r.starts_with("err")) {
+                // sends that are meant to fail locally (C06 converse family)
+                let expected_local_failure = matches!(self.cfg.senders[j], SK::Q1Big | SK::SubBig)
+                    || (matches!(self.cfg.senders[j], SK::Q1Id(_)) && s.results.iter().all(|r| !r.starts_with("err") || r.contains("PacketIdInUse")));
+                if s.started && !s.cancelled && !expected_local_failure && s.results.iter().any(|r| r.starts_with("err")) {
                     return Err(Violation::new(
                         "send-failed",
                         self.witness(),
@@ -742,6 +1026,12 @@ impl Scenario for Out {
                     ));
                 }
             }
+        }
+        if self.cfg.judge & J_ROUTING != 0 {
+            self.judge_routing()?;
+        }
+        if self.cfg.judge & J_QOS2 != 0 {
+            self.judge_qos2()?;
         }
         let a = self.app.borrow();
         let obs = format!(
@@ -751,6 +1041,6 @@ impl Scenario for Out {
             a.iter().map(|s| (s.done, s.cancelled, s.results.clone(), s.rel_result.clone())).collect::<Vec<_>>(),
             stops
         );
-        Ok(Outcome { obs, nontrivial: self.parked_seen })
+        Ok(Outcome { obs, nontrivial: self.parked_seen || self.pubrec_sent.len() >= 2 || self.peer_sent > 0 || self.good_acks.len() >= 2 })
     }
 }
